@@ -456,6 +456,10 @@ Definition excluded_sites : list string :=
     "inlines.rs:handle_entity:pos-1-len";
     "inlines.rs:handle_entity:pos-1";
     "inlines.rs:handle_pointy_brace:input[pos..]";
+    "inlines.rs:handle_pointy_brace:uri";
+    "inlines.rs:handle_pointy_brace:email";
+    "inlines.rs:handle_pointy_brace:contents";
+    "inlines.rs:make_autolink:end_column-1";
     "inlines.rs:handle_pointy_brace:pos-1-matchlen";
     "inlines.rs:handle_pointy_brace:pos-matchlen-1";
     "inlines.rs:handle_pointy_brace:pos-1";
@@ -481,6 +485,11 @@ Definition excluded_sites : list string :=
     "inlines.rs:process_emphasis:unreachable";
     "inlines.rs:brackets[brackets_len - 1]";
     "inlines.rs:RefMap::lookup:max_ref_size-ref_size";
+    "inlines.rs:handle_close_bracket:input[endurl..]";
+    "inlines.rs:handle_close_bracket:input[starttitle..]";
+    "inlines.rs:handle_close_bracket:input[endtitle..]";
+    "inlines.rs:handle_close_bracket:title";
+    "strings.rs:clean_title:title[1..title_len - 1]";
     "inlines.rs:handle_wikilink:startpos-1";
     "inlines.rs:label_backslash_escapes:start_column+offset-1";
     "autolink.rs:www_match:i+link_end-1";
